@@ -226,6 +226,7 @@ def run(tier, seed, only=None):
     rep.bounds = {"ny": nys, "KS N": "2..8 (quick up to 4)"}
     rep.assumptions = ["real arithmetic", "exp/log as uninterpreted atoms with instantiated monotonicity, exp(a<=0)<=1, log(a>=1)>=0 facts",
                        "positive section inputs (radius, thicknesses, areas)"]
+    functionals_group(rep, tier, timeout)
     return rep.finish("C15: non-negativity, rigid-motion, homogeneity and closed-form identities of the stress recovery; KS bounds "
                       "and exponent-sign obligations on every arg-max path")
 
@@ -235,3 +236,93 @@ def replay_file(path):
     print("recorded counterexample: %s" % spec.get("what"))
     print("VIOLATION property=%s replay=%s" % (PID, path))
     return 1
+
+
+def functionals_group(rep, tier, timeout):
+    """The real SpatialBeamFunctionals group through its own wiring, for both structural models and both failure options:
+    the stresses are those of the group's own nodes / displacements / section inputs, and the failure measure is the
+    exact (stress / allowable - 1) or the KS aggregate of *those* stresses."""
+    import warnings
+
+    import openmdao.api as om
+    from openaerostruct.structures.spatial_beam_functionals import SpatialBeamFunctionals
+    from symoas import pipe
+
+    for kind in ("tube", "wingbox"):
+        for exact in (True, False):
+            ny = 2
+            s = K.surface(2, ny, True, fem_model_type=kind, exact_failure_constraint=exact) if kind == "wingbox" else K.surface(2, ny, True, exact_failure_constraint=exact)
+            prob = om.Problem(reports=False)
+            prob.model.add_subsystem("f", SpatialBeamFunctionals(surface=s), promotes=["*"])
+            with warnings.catch_warnings():
+                warnings.simplefilter("ignore")
+                prob.setup()
+                prob.final_setup()
+            rep.encode(SpatialBeamFunctionals)
+            GP = pipe.GroupPipe(prob, abstract=("vonmises.vonmises",))  # the failure component sees the stresses as fresh symbols
+            GP.run()
+            mod, cls = ("structures.vonmises_tube", "VonMisesTube") if kind == "tube" else ("structures.vonmises_wingbox", "VonMisesWingbox")
+            sc = SymComp(mod, cls, surface=s)
+            # group-level inputs by their promoted names (what a user / the enclosing group connects to)
+            top = {}
+            for absn, val in GP.vals.items():
+                if absn.startswith("_auto_ivc"):
+                    top[GP.prom_out.get(absn, absn)] = val
+            missing = [n for n in sc.in_names if n not in top]
+            want = sc.sym1({n: top[n] for n in sc.in_names}) if not missing else None
+            vm = GP.get("vonmises")  # the symbols standing for ...
+            vm_val = [v for k, v in GP.abstracted.items() if k.endswith("vonmises.vonmises")][0]  # ... this computed value
+            lab = "%s, %s failure" % (kind, "exact" if exact else "KS")
+            obs = []
+            if want is None:
+                obs.append(oblig.Ob("group inputs", cond=ne(ZERO, ONE), meta={"family": "the stress component's inputs are inputs of the group (%s): missing %s" % (lab, missing)}))
+            else:
+                obs += idents("vonmises", vm_val, want["vonmises"], meta={"family": "stresses of the group are those of its own nodes, displacements and section inputs (%s)" % lab})
+            fcomp = SymComp("structures.failure_exact", "FailureExact", surface=s) if exact else SymComp("structures.failure_ks", "FailureKS", surface=s)
+            fpaths = fcomp.sym({"vonmises": vm})
+            fail = GP.get("failure")
+            if len(fpaths) == 1:
+                obs += idents("failure", fail, fpaths[0].result["outputs"]["failure"], meta={"family": "failure measure is the %s function of the group's own stresses" % ("exact" if exact else "KS")})
+            if exact:
+                obs += idents("failure exact", fail, np.asarray(vm, dtype=object) / S(s["yield"]) - 1, meta={"family": "exact failure option gives stress / allowable - 1 per element (%s)" % kind})
+            else:
+                obs.append(oblig.Ob("failure is one aggregate", cond=ne(S(int(np.size(fail))), 1), meta={"family": "KS failure option gives one aggregated value (%s)" % kind}))
+
+            def rp(ob, env, s=s, exact=exact, kind=kind):
+                return replay_functionals(s, exact, kind)
+
+            run_obligations(rep, "real SpatialBeamFunctionals group [%s]" % lab, obs, timeout, replay=rp, levels=(1, 2),
+                            family=lambda ob: "SpatialBeamFunctionals: " + ob.meta["family"])
+
+
+def replay_functionals(s, exact, kind):
+    import warnings
+
+    import openmdao.api as om
+    from openaerostruct.structures.spatial_beam_functionals import SpatialBeamFunctionals
+
+    prob = om.Problem(reports=False)
+    prob.model.add_subsystem("f", SpatialBeamFunctionals(surface=s), promotes=["*"])
+    with warnings.catch_warnings():
+        warnings.simplefilter("ignore")
+        prob.setup()
+    rng = np.random.default_rng(4)
+    ny = s["mesh"].shape[1]
+    prob.set_val("nodes", np.stack([0.2 * np.arange(ny)[::-1], -2.0 * np.arange(ny)[::-1], 0.1 * np.arange(ny)], axis=1).astype(float))
+    prob.set_val("disp", 1e-3 * (1 + rng.random((ny, 6))))
+    for n_, v in (("radius", 0.1), ("thickness", 0.01), ("Qz", 1e-3), ("J", 1e-4), ("A_enc", 0.05), ("spar_thickness", 0.004), ("htop", 0.06), ("hbottom", 0.05), ("hfront", 0.2), ("hrear", 0.18)):
+        try:
+            prob.set_val(n_, v * (1 + 0.1 * rng.random(ny - 1)))
+        except Exception:
+            pass
+    prob.run_model()
+    vm = np.array(prob.get_val("vonmises"), dtype=float)
+    fail = np.array(prob.get_val("failure"), dtype=float)
+    ex = vm / s["yield"] - 1.0
+    if exact:
+        bad = fail.shape != ex.shape or np.abs(fail - ex).max() > 1e-9 * max(1.0, np.abs(ex).max())
+        return bad, "exact failure option: failure = %s, stress / allowable - 1 = %s" % (np.round(fail.ravel(), 6), np.round(ex.ravel(), 6))
+    mx = ex.max()
+    N = ex.size
+    bad = fail.size != 1 or not (mx - 1e-9 <= float(fail.ravel()[0]) <= mx + np.log(N) / 100.0 + 1e-9)
+    return bad, "KS failure option: failure = %s, largest element value %.6g, bound + ln N / rho = %.6g" % (np.round(fail.ravel(), 6), mx, mx + np.log(N) / 100.0)
